@@ -14,6 +14,9 @@ int main(int argc, char** argv) {
 		TableSpec s; s.ndim = 1 + (uint32_t)(fi % 6); double size = 1;
 		for (uint32_t d = 0; d < s.ndim; d++) {
 			int n = (int)rng.below(6); int extra = (int)rng.below(s.ndim >= 5 ? 2 : 5);
+			// every seventh file has one long axis (300..900 knots): a block of that size which is held a moment too long, or
+			// never returned, is larger than the rounding slack of the estimate
+			if (fi % 7 == 6 && d == (fi / 7) % s.ndim) extra = 300 + (int)rng.below(600);
 			if (size * (n + 1 + extra) > 3e4) { n = 0; extra = 0; }
 			s.order.push_back(n); std::vector<double> k; double v = -2; for (int j = 0; j < 2 * n + 2 + extra; j++) { k.push_back(v); v += 0.5 + rng.unit(); }
 			s.knots.push_back(k); size *= n + 1 + extra;
@@ -39,7 +42,7 @@ int main(int argc, char** argv) {
 		std::string path = dir + "/f" + std::to_string(fi) + ".fits";
 		src.write_fits(path);
 		for (int rep = 0; rep < 4; rep++) {
-			uint32_t cd = (uint32_t)rng.below(s.ndim); uint32_t nk = rep == 0 ? 1 : 2 + (uint32_t)rng.below(7);
+			uint32_t cd = (uint32_t)rng.below(s.ndim); if (fi % 7 == 6 && rep % 2) cd = (uint32_t)((fi / 7) % s.ndim); uint32_t nk = rep == 0 ? 1 : 2 + (uint32_t)rng.below(7);
 			int led = ledger++; AllocRegistry& R = AllocRegistry::get(); R.record_sizes = true;
 			size_t est = CTable::estimateMemory(path, nk, cd);
 			std::string meta;
